@@ -2,6 +2,7 @@
 mod c01;
 mod c02;
 mod c03;
+mod c04;
 mod c07;
 mod langs;
 mod c08;
@@ -42,6 +43,7 @@ fn main() {
                 "C01" => c01::run(tier),
                 "C02" => c02::run(tier),
                 "C03" => c03::run(tier),
+                "C04" => c04::run(tier),
                 "C07" => c07::run(tier),
                 "C08" => c08::run(tier),
                 "C13" => c13::run(tier),
@@ -66,6 +68,7 @@ fn main() {
                 "c07" => c07::replay(case),
                 "c13-f64" => c13::replay_f64(case),
                 "c15" => c15::replay(case),
+                "c04" => c04::replay(case),
                 e => {
                     eprintln!("unknown replay engine {e}");
                     2
